@@ -98,23 +98,29 @@ def sign (f : Rat) : Rat := if f < 0 then -1 else 1
 def transformPoints (m : M44) (ps : List V3) : List V3 := ps.map (apply m)
 
 /-- `transform_thickness_and_extrusion_without_ocs(entity, m)`: thickness and extrusion attributes of LINE / POINT
-    (`none` = attribute absent; the default extrusion (0, 0, 1) is what `dxf.extrusion` returns then) -/
+    (`none` = attribute absent; the default extrusion (0, 0, 1) is what `dxf.extrusion` returns then).
+    A thickness that is present and non-zero: the thickness vector is transformed, its length (with the old sign) is the new
+    thickness and the new extrusion is the normalised vector times that sign.  Otherwise only an existing extrusion is
+    transformed and normalised. -/
 def thicknessNoOcs (sqrt : Rat → Rat) (m : M44) (thickness : Option Rat) (extrusion : Option V3) :
     Except TErr (Option Rat × Option V3) :=
   let ext := extrusion.getD ⟨0, 0, 1⟩
-  match thickness with
-  | some t =>
-    let v := applyDir m (V3.smul t ext)
-    let r := sqrt (magSq v)
-    if r = 0 then .error .zeroDivision            -- Vec3.normalize of the null vector
-    else .ok (some (r * sign t), some (V3.smul (1 / r) v))
-  | none =>
+  let bare : Except TErr (Option Rat × Option V3) :=
     match extrusion with
     | some e =>
       let v := applyDir m e
       let r := sqrt (magSq v)
-      if r = 0 then .error .zeroDivision else .ok (none, some (V3.smul (1 / r) v))
-    | none => .ok (none, none)
+      if r = 0 then .error .zeroDivision else .ok (thickness, some (V3.smul (1 / r) v))
+    | none => .ok (thickness, none)
+  match thickness with
+  | some t =>
+    if t = 0 then bare
+    else
+      let v := applyDir m (V3.smul t ext)
+      let r := sqrt (magSq v)
+      if r = 0 then .error .zeroDivision            -- Vec3.normalize of the null vector
+      else .ok (some (r * sign t), some (V3.smul (sign t) (V3.smul (1 / r) v)))
+  | none => bare
 
 structure Line where
   start : V3
@@ -262,13 +268,15 @@ def Ins.unitRot (sqrt : Rat → Rat) (i : Ins) : Ins :=
   { i with rot := ⟨i.rot.x / r, i.rot.y / r⟩ }
 
 /-- scale / orthogonality part of `InsertCoordinateSystem.transform` (regenerated kernel): (x, y, z scale, new extrusion);
+    the x- and y-axis of the block reference are the OCS axes rotated by the rotation angle: the kernel receives the two
+    directions `Vec3.from_angle(angle)` = (c, s, 0) and `Vec3.from_angle(angle + pi/2)` = (-s, c, 0);
     `PyErr.valueError` stands for `InsertTransformationError` -/
 def icsScales (sqrt : Rat → Rat) (old : Ocs) (m : M44) (i : Ins) (tol : Rat) : Except PyErr (Rat × Rat × Rat × V3) :=
-  TransformKernels.icsScalesS sqrt i.sx i.sy i.sz old.t old.m m tol
+  TransformKernels.icsScalesS sqrt i.sx i.sy i.sz old.t old.m m tol ⟨i.rot.x, i.rot.y, 0⟩ ⟨-i.rot.y, i.rot.x, 0⟩
 
 /-- `InsertCoordinateSystem.transform` + `Insert.transform`: `new` is `OCS(uz)` for the new extrusion `uz` returned by
     `icsScales`; the new rotation is kept as the un-normalised direction `transform_direction((c, s, 0))`.
-    NOTE (copied from the code): the scale factors are measured on the UNROTATED OCS axes. -/
+    The scale factors are measured on the block reference's own (rotated) x- and y-axis. -/
 def Ins.transform (sqrt : Rat → Rat) (old new : Ocs) (m : M44) (i : Ins) (tol : Rat) : Except TErr Ins :=
   match icsScales sqrt old m i tol with
   | .error .zeroDivision => .error .zeroDivision
